@@ -248,3 +248,30 @@ func Harness_C06_q_messages_on_one_stream() {
 	}
 	verif.Reach("end")
 }
+
+// Payloads around 64 KiB in ONE Encrypt call (where a 16-bit length computation could wrap):
+// wire = reference framing, round trip identical.
+func Harness_C06_t_payloads_around_64k() {
+	secret, raw := c06Secret()
+	acc, _ := NewSecureSessionFromSharedKey(secret)
+	ctl, _ := NewSecureClientSessionFromSharedKey(secret)
+	key := c06RefKey(raw, "Control-Read-Encryption-Key")
+	n := []int{65535, 65536, 65537, 66560 + 5}[verif.Choice("len", 4)]
+	// (contents: zeros with a symbolic first and last byte - 64 KiB of symbolic bytes makes the
+	// collision-freedom constraints between the 65 frames too expensive)
+	payload := make([]byte, n)
+	payload[0], payload[n-1] = verif.U8("first"), verif.U8("last")
+	enc, err := acc.Encrypt(bytes.NewBuffer(append([]byte{}, payload...)))
+	verif.Assert(err == nil, "encrypt-ok")
+	wire, _ := ioutil.ReadAll(enc)
+	ref, _ := c06RefFrames(key, 0, payload)
+	verif.Assert(verif.Eq(wire, ref), "wire-equals-reference-framing")
+	dec, err := ctl.Decrypt(bytes.NewBuffer(wire))
+	verif.Assert(err == nil, "decrypt-ok")
+	if err != nil {
+		return
+	}
+	got, _ := ioutil.ReadAll(dec)
+	verif.Assert(verif.Eq(got, payload), "roundtrip-identical")
+	verif.Reach("end")
+}
